@@ -20,6 +20,7 @@ PROP = {
         "GunYu.Props.C05.mem_invariant",
         "GunYu.Props.C05.mem_invariant_settled",
         "GunYu.Props.C05.mem_history_records_appends",
+        "GunYu.Props.C05.mem_closed_writer_drops_pending",
         "GunYu.Props.C05.mem_refines",
         "GunYu.Props.C05.mem_index_contiguous",
         "GunYu.Props.C05.mem_reader_delivers",
@@ -27,6 +28,7 @@ PROP = {
         "GunYu.Props.C05.mem_valid_iff_readable",
         "GunYu.Props.C05.mem_open_stream_reader",
         "GunYu.Props.C05.mem_snapshot_offset_needs_handover",
+        "GunYu.Props.C05.mem_valid_uncovered_is_snapshot_replay",
         "GunYu.Props.C05.mem_snapshot_offered_complete_or_live",
         "GunYu.Props.C05.mem_snapshot_reader_delivers",
         "GunYu.Props.C05.mem_snapshot_shape",
@@ -102,6 +104,19 @@ PROP = {
         "mem_reset_empties_index — that it cannot deliver OTHER bytes afterwards follows from mem_reader_delivers only while it holds an indexed segment; for heap segments "
         "(immutable, closed) it is the correspondence); (c) progress (a reader reaches the tail) is not proved, as on disk; (d) the consumer side (pipe, bufio) is modelled "
         "(buf/bbuf) but `out` is what the copy loop wrote to the pipe — that the consumer reads exactly `out` is the consume step's definition + correspondence",
+        "memory model vs code, differences that remain (each property-neutral, reasons): (1) NewAofWritter is two lock sections in the code (install the new writer; old.Close() -> finishAof(old)) "
+        "and one step in the model: in the window an old writer blocked on capacity that is woken re-checks only capacity and may append to its (no longer last) segment — the bytes are the "
+        "source's bytes at those offsets and the new writer starts at the same offset, so readers get the same bytes either way; the window has no yield point under synctest and is not driven; "
+        "(2) a writer that dies WHILE BLOCKED may run one more collector pass before it sees EOF (ensureCapacityLocked selects between spaceNotify and done, both ready): it can drop the closed, "
+        "unreferenced segment it just wrote — retention only; the generator closes/replaces a blocked writer only while the oldest segment is pinned by a reader, where the outcome is a function "
+        "of the operations; (3) `rdbFail` models the source failing between two chunks; a Read that returns the LAST bytes together with an error (io.Reader allows it, bufio over a socket rarely does) "
+        "drops a complete snapshot in the code and is not an operation of the model — it offers less, never other bytes; (4) the model's rdbAppend accepts a chunk beyond the announced size (the code's ingest clamps); "
+        "(5) copyStep moves the whole rest of a segment in one step (code: 4096/8192-byte iterations, equivalent for append-only data)",
+        "memory validity: an offset BELOW the offered snapshot's is valid in model and code and is served by a replay of the snapshot even when the log no longer starts at the snapshot's offset "
+        "(snapshot (500,4), log trimmed to 508: valid(499) -> the real store serves the complete snapshot 01020304; valid(500) = false -> the source is asked; corpus r3 line): no byte of another "
+        "offset is served and no gap is bridged from the cache, so this is not counted as a violation of 'valid only if such a read is possible'; a memory counterpart of disk_snapshot_hands_over is false by design (a3509d3 keeps the collector's order)",
+        "real-time: no verdict of the C05 harnesses depends on wall-clock time any more — budgets are counted in polls of a reference goroutine (vfutil.StartBudget, twice the nominal duration), "
+        "the hard limit (10 min) and the whole-test watchdogs end the run as an infrastructure failure (broken tie), never as a violation",
         "disk refinement is proved as `abs s = suffix of the written history from abs.base` in every reachable state (disk_refines) + the per-op history lemma; "
         "a separate abstract transition system with a simulation relation is not defined",
         "findings of the real-goroutine phases (concurrent phase, invalidation, snapshot race, memory stress) are not replayable inputs: the replay names backend, scenario and seed only",
@@ -123,6 +138,6 @@ MANIFEST = {
             "reference count and byte compared with the model and with independent bookkeeping.",
     "note": "trusted: Lean kernel, harness, synctest quiescence; assumptions: callers' protocol for disk writers (continuity; no writer open at an id switch); "
             "partial: no ghost for the snapshot's source bytes in the memory model, one-step progress instead of a catch-up theorem. "
-            "Defects fixed: D14 (memory+disk), D17, D20-D30 (see known_findings.d/C05.json; D27 = re-scan with open readers at every source reconnect, D28 = reset dead-lock with two tailing readers, D29 = snapshot reader open vs commit race, D30 = memory collector breaks the snapshot->log hand-over, fixed by c06).",
+            "Defects fixed: D14 (memory+disk), D17, D20-D31 (see known_findings.d/C05.json; D31 = reader orphaned by the trim of an empty live segment; D27 = re-scan with open readers at every source reconnect, D28 = reset dead-lock with two tailing readers, D29 = snapshot reader open vs commit race, D30 = memory collector breaks the snapshot->log hand-over, fixed by c06).",
     "technique": "Lean 4 proof (invariant over arbitrary operation lists, step-level refinement) + differential correspondence on generated operation sequences",
 }
